@@ -13,11 +13,12 @@ case = {"mode": "inline"|"threaded", "sched": {"base": 0|1, "gaps": [[gap, v]...
         "hub": "select"|"epoll", "sched_thread": bool, "rand": [k/8...],
         "horizon": seconds, "locks": n, "order": [["task"|"timer", i]...],
         "tasks":  [{"prio": p|None, "form": "sub"|"target", "fast": bool, "prog": [op...]}],
-        "timers": [{"t", "recurring", "abs", "self_stop", "rets": [...], "create": "init"|"task", "busy"}],
+        "timers": [{"t", "recurring", "abs", "self_stop", "rets": [...], "create": "init"|"task", "busy", "started": bool}],
+        ("order" may also hold ["start", i] -- start() of a started=False timer -- and ["advance", seconds])
         "fds":    [{"r_at": s|None, "w_at": s|None}],
         "socks":  [{"arrivals": [[s, nbytes]...], "w_at": s, "sends": ["all"|k|0|"eagain"...]}]}
 op   = {"op": "y0"|"yn"|"sleep"|"select"|"recv"|"send"|"block"|"call"|"acquire"|"release"|"quit"|"raise"|"exit"
-              |"busy"|"wake"|"cancel"|"mktimer", ...}       (the last four are in-step actions, they do not yield)
+              |"busy"|"wake"|"cancel"|"mktimer"|"starttimer", ...}   (the last five are in-step actions, they do not yield)
 """
 import itertools
 import os
@@ -67,7 +68,9 @@ EXHAUSTIVE_SCOPE = {
   "quick": "all ordered pairs of programs of length 1..2 over {yield 0, yield .25, Sleep(.5), Sleep(absolute), Select([],[],[],.25), yield False, wake, "
            "sub-task call, busy .5, raise}; timer grid (t, one-shot/recurring/absolute, self-stop, return scripts, cancel instants, companion work); "
            "descriptor grid (2 fds x ready instants x timeouts x two selecting tasks x select/epoll); "
-           "lock grid (two tasks, programs of length <= 2 resp. acquire + 2 over {acquire, try-acquire, release, yield 0, yield .25} on one lock); "
+           "poll grid (Select with/without fds, Recv, Send with timeout exactly 0 / 0.0 x fd and socket readiness x other work x select/epoll x "
+           "inline/threaded); deferred-timer grid (Timer(started=False) one-shot/recurring/absolute, start() after .125/.375/.75 s from a task "
+           "step or during start-up, cancelled before start, never started; both hub modes); lock grid (two tasks, programs of length <= 2 resp. acquire + 2 over {acquire, try-acquire, release, yield 0, yield .25} on one lock); "
            "threaded hub: 100 pairs of one-op programs x 3 thread schedules + timer/descriptor grid x 2 schedules, and EVERY single deviation "
            "from the default thread schedule (each decision point x each alternative thread) of 4 small scenarios",
   "thorough": "as quick, plus all triples of programs of length 1 and pairs with one program of length 3, both schedule() paths; threaded hub: "
@@ -216,9 +219,55 @@ def _enum_timers(tier):
                        "tasks": [{"prog": comp}, {"prog": [{"op": "sleep", "n": 0.5}, {"op": "sleep", "n": 0.5}]}]}
 
 
+def _enum_polls(tier):
+  """Timed waits whose timeout is exactly 0 (a poll), int and float, in both hub modes."""
+  others = [[{"op": "y0"}], [{"op": "busy", "d": 0.25}], [{"op": "yn", "n": 0.25}], [{"op": "select", "r": [0], "t": 0.5}]]
+  for z in (0, 0.0):
+    polls = [{"op": "select", "t": z}, {"op": "select", "t": z, "style": 1, "kw": True}, {"op": "select", "r": [0], "t": z},
+             {"op": "select", "r": [0], "w": [0], "t": z, "kw": True}, {"op": "recv", "sock": 0, "t": z}, {"op": "send", "sock": 0, "len": 2, "t": z}]
+    for poll in polls:
+      for other in others:
+        for r_at in (None, 0, 0.25):
+          for arr in ([], [[0, 2]], [[0.25, 2]]):
+            for w_at in (0, 0.5):
+              for hub in ("select", "epoll"):
+                for mode in ("inline", "threaded"):
+                  if mode == "threaded" and (hub == "epoll" or isinstance(z, int)) and tier == "quick":
+                    continue
+                  yield {"mode": mode, "hub": hub, "horizon": 4, "fds": [{"r_at": r_at, "w_at": r_at}],
+                         "socks": [{"arrivals": arr, "w_at": w_at, "sends": []}],
+                         "tasks": [{"prog": [poll, {"op": "y0"}, poll]}, {"prog": other}]}
+
+
+def _enum_deferred(tier):
+  """Timer(started=False) whose start() comes later: from a task step, or during start-up after time has passed."""
+  for mode in ("inline", "threaded"):
+    for t in (0.25, 0.5):
+      for kind in ("one-shot", "recurring", "absolute"):
+        tm = {"t": t, "recurring": kind == "recurring", "abs": kind == "absolute", "started": False, "rets": [None, None, False]}
+        for gap in (0.125, 0.375, 0.75):
+          for extra in ([], [{"op": "busy", "d": 0.25}], [{"op": "cancel", "timer": 0}]):
+            # started by a task after `gap`
+            yield {"mode": mode, "horizon": 4, "timers": [tm],
+                   "tasks": [{"prog": [{"op": "sleep", "n": gap}] + extra + [{"op": "starttimer", "timer": 0}, {"op": "yn", "n": 0.25}]},
+                             {"prog": [{"op": "yn", "n": 0.5}, {"op": "y0"}]}]}
+          # started during start-up after `gap` has passed
+          for order in ([["timer", 0], ["advance", gap], ["start", 0], ["task", 0]],
+                        [["task", 0], ["timer", 0], ["advance", gap], ["start", 0]]):
+            yield {"mode": mode, "horizon": 4, "timers": [tm], "order": order,
+                   "tasks": [{"prog": [{"op": "yn", "n": 0.5}, {"op": "y0"}]}]}
+        # created by a task with started=False, started by another task later; and never started at all
+        tm2 = dict(tm, create="task")
+        yield {"mode": mode, "horizon": 4, "timers": [tm2],
+               "tasks": [{"prog": [{"op": "mktimer", "timer": 0}, {"op": "yn", "n": 0.375}, {"op": "y0"}]},
+                         {"prog": [{"op": "sleep", "n": 0.625}, {"op": "starttimer", "timer": 0}, {"op": "yn", "n": 1.0}]}]}
+        yield {"mode": mode, "horizon": 4, "timers": [tm],
+               "tasks": [{"prog": [{"op": "yn", "n": 1.0}]}, {"prog": [{"op": "y0"}]}]}
+
+
 def _enum_io(tier):
   ats = [None, 0, 0.25, 0.5, 2.5]
-  tmo = [None, 0.25, 0.5]
+  tmo = [None, 0, 0.25, 0.5]
   for hub in ("select", "epoll"):
     for a0 in ats:
       for a1 in ats:
@@ -319,17 +368,18 @@ def _strategy(tier, mode="inline"):
   dur = st.sampled_from(_DUR)
   at = st.sampled_from(_AT)
   idx = st.integers(0, 4)
-  opt_dur = st.one_of(st.none(), dur)
+  zero = st.sampled_from([0, 0.0])                     # a poll: timeout exactly 0, int and float
+  opt_dur = st.one_of(st.none(), dur, dur, zero)
 
   sel_fd = st.fixed_dictionaries({"op": st.just("select"), "r": st.lists(st.integers(0, 2), max_size=2, unique=True),
                                   "w": st.lists(st.integers(0, 2), max_size=1), "t": opt_dur,
                                   "style": st.sampled_from([0, 0, 1, 2]), "kw": st.booleans()})
-  sel_t = st.fixed_dictionaries({"op": st.just("select"), "t": dur, "style": st.sampled_from([0, 1, 2]), "kw": st.booleans()})
+  sel_t = st.fixed_dictionaries({"op": st.just("select"), "t": st.one_of(dur, dur, dur, zero), "style": st.sampled_from([0, 1, 2]), "kw": st.booleans()})
   sleep_rel = st.fixed_dictionaries({"op": st.just("sleep"), "n": st.sampled_from([0] + _DUR)})
   sleep_abs = st.fixed_dictionaries({"op": st.just("sleep"), "n": st.sampled_from([-0.5, 0, 0.25, 0.5, 1.0]), "abs": st.just(True)})
   recv = st.fixed_dictionaries({"op": st.just("recv"), "sock": st.integers(0, 1), "t": opt_dur, "buf": st.sampled_from([None, None, 1, 2])})
   send = st.fixed_dictionaries({"op": st.just("send"), "sock": st.integers(0, 1), "len": st.integers(1, 4),
-                                "bs": st.sampled_from([None, None, 1, 2]), "t": st.sampled_from([None, None, 0.5])})
+                                "bs": st.sampled_from([None, None, 1, 2]), "t": st.sampled_from([None, None, None, 0.5, 0, 0.0])})
   busy = st.fixed_dictionaries({"op": st.just("busy"), "d": dur})
   ret = st.sampled_from(["end", {"v": "token"}, {"v": "token"}, {"v": 0}, {"v": False}, {"v": None}, {"v": ""}, {"raise": 1}, {"raise": 1}])
 
@@ -356,6 +406,7 @@ def _strategy(tier, mode="inline"):
     busy,
     st.fixed_dictionaries({"op": st.just("cancel"), "timer": idx}),
     st.fixed_dictionaries({"op": st.just("mktimer"), "timer": idx}),
+    st.fixed_dictionaries({"op": st.just("starttimer"), "timer": idx}),
   )
   rare = st.sampled_from([{"op": "raise"}, {"op": "raise"}, {"op": "exit"}, {"op": "quit"}])
   op = st.one_of(plain, plain, plain, plain, plain, plain, plain, plain, plain, plain, plain, rare)
@@ -367,11 +418,11 @@ def _strategy(tier, mode="inline"):
     st.fixed_dictionaries({"t": st.sampled_from([0] + _DUR), "recurring": st.just(False), "abs": st.booleans(),
                            "self_stop": st.booleans(), "rets": st.lists(st.sampled_from([None, False, True, 0]), max_size=1),
                            "create": st.sampled_from(["init", "init", "task"]), "busy": st.sampled_from([None, None, 0.25]),
-                           "explicit_sched": st.booleans()}),
+                           "explicit_sched": st.booleans(), "started": st.sampled_from([True, True, False])}),
     st.fixed_dictionaries({"t": st.sampled_from(_DUR[1:]), "recurring": st.just(True), "self_stop": st.booleans(),
                            "rets": st.lists(st.sampled_from([None, None, False, True, 0, "cancel"]), max_size=5),
                            "create": st.sampled_from(["init", "init", "task"]), "busy": st.sampled_from([None, None, 0.125]),
-                           "explicit_sched": st.booleans()}),
+                           "explicit_sched": st.booleans(), "started": st.sampled_from([True, True, False])}),
   )
   fd = st.fixed_dictionaries({"r_at": st.one_of(st.none(), at), "w_at": st.one_of(st.none(), at)})
   sock = st.fixed_dictionaries({"arrivals": st.lists(st.tuples(at, st.integers(1, 4)).map(list), max_size=4),
@@ -384,6 +435,11 @@ def _strategy(tier, mode="inline"):
     tasks = draw(st.lists(task, min_size=ntasks, max_size=ntasks))
     timers = draw(st.lists(timer, max_size=3))
     items = [["task", i] for i in range(len(tasks))] + [["timer", i] for i in range(len(timers))]
+    for i, tm in enumerate(timers):
+      if not tm.get("started", True) and draw(st.booleans()):
+        items.append(["start", i])                 # started during start-up (a no-op if it comes before the construction)
+        if draw(st.booleans()):
+          items.append(["advance", draw(st.sampled_from([0.125, 0.25, 0.5, 1.0]))])
     order = draw(st.permutations(items)) if len(items) > 1 else items
     mode = draw(modes)
     sched = {}
@@ -412,6 +468,8 @@ def plan(tier):
       Enum("timers", lambda: _enum_timers("quick"), shards=8),
       Enum("io", lambda: _enum_io("quick"), shards=8),
       Enum("locks", lambda: _enum_locks("quick"), shards=4),
+      Enum("polls", lambda: _enum_polls("quick"), shards=8),
+      Enum("timers-deferred", lambda: _enum_deferred("quick"), shards=4),
       Hyp("programs", lambda: _strategy("quick"), examples=4000, shards=16),
       Enum("threaded-grid", lambda: _enum_threaded("quick"), shards=8),
       Enum("threaded-preempt", lambda: _enum_preempt("quick"), shards=8),
@@ -422,6 +480,8 @@ def plan(tier):
     Enum("timers", lambda: _enum_timers("thorough"), shards=16),
     Enum("io", lambda: _enum_io("thorough"), shards=16),
     Enum("locks", lambda: _enum_locks("thorough"), shards=16),
+    Enum("polls", lambda: _enum_polls("thorough"), shards=16),
+    Enum("timers-deferred", lambda: _enum_deferred("thorough"), shards=8),
     Hyp("programs", lambda: _strategy("thorough"), examples=300000, shards=16),
     Enum("threaded-grid", lambda: _enum_threaded("thorough"), shards=16),
     Enum("threaded-preempt", lambda: _enum_preempt("thorough"), shards=16),
